@@ -3,6 +3,22 @@
 HOOK_COMMITS = ["f5b1d5244facd014c279423c479633cc3b50fced", "3268006", "35263043bf6b5f4fd4fd4db82c5d5667fb3b1627", "271a2157aed3e04ac2f8ae3450ad240ff780209e"]
 
 PROPS = {
+    "C02": {
+        "level": "translation_validation",
+        "rule": "generated programs of the Horn fragment (structs of arity 0-2, 1-3 traits with 0-1 parameters, optionally #[coinductive], 2-7 impls: "
+                "concrete, structural with where-clause, blanket, repeated parameter, growing/polymorphic-recursive, concrete cycle edges) lowered by "
+                "chalk; 8 closed goals each (atoms, conjunctions, forall/if, not); both solvers at default limits on fresh instances; every answer is "
+                "judged by the Lean Stage-A evaluator on the Horn clauses read off chalk's lowered Program; non-trivial = every judged answer; "
+                "distinct = distinct (program, goal, solver) lines",
+        "technique": "certified checker: Lean 4 evaluator with proved soundness of yes/no against a fixed-point semantics (evalGoal_sound), applied to every solver answer",
+        "claim": "For every program/goal generated, a Unique / No-solution answer is accepted only if the kernel-checked evaluator certifies that the goal "
+                 "holds / fails in the declarative semantics (least fixed point, greatest for coinductive traits); Ambiguous on a decided closed goal is a rejection. "
+                 "The solvers themselves are not verified: every produced answer is.",
+        "note": "Trusted: Lean kernel; the translation horn.rs from chalk's lowered Program/Goal to Horn clauses (hand-written, small); Stage-A theorems "
+                "evalInd_yes/no, evalCo_yes/no, evalGoal_sound. Inconclusive (fuel, growing types) cases are counted, never alarms. Solver limits: defaults only so far.",
+        "correspondence": "real Solver::solve (SLG, recursive) vs Sem.evalGoal on horn(program)",
+        "explanation": "translation validation of solver answers by a certified checker",
+    },
     "C17": {
         "level": "proof",
         "rule": "pairs of canonical substitutions (1-3 generic args over every constructor, placeholders, consts, lifetimes, variables ^0.i) "
